@@ -435,6 +435,19 @@ class Ctx:
             raise Broken("sharded replay %s lost results" % name)
         return out
 
+    @staticmethod
+    def _same_class_fails(results, r):
+        """a history-dependent failure whose victim varies from run to run (shared state + scheduling): does the re-run
+        show a failure of the same kind on some case?"""
+        def core(x):
+            w = x.get("what") or ""
+            for pre in ("only after the history of the other cases in the same process (it passed when it was run first): ",
+                        "only after the history of the earlier cases in the same process (it passes when run alone): "):
+                w = w.replace(pre, "")
+            return (x.get("deviation") or "") + "|" + re.sub(r"\d+", "N", w)[:60]
+        k = core(r)
+        return any((not x["ok"]) and core(x) == k for x in results)
+
     def load_cases(self, path):
         return [l.rstrip("\n") for l in open(path) if l.strip()]
 
@@ -483,7 +496,7 @@ class Ctx:
                     if whole is None:
                         whole = self.replay(name, cases_path, race=race, extra=extra)
                     r["cases_path"] = cases_path
-                    if whole[r["i"]]["ok"]:
+                    if whole[r["i"]]["ok"] and not self._same_class_fails(whole, r):
                         raise Broken("history-dependent failure of %s case %d not reproducible by running the stage again: %s"
                                      % (name, r["i"], json.dumps(r)[:500]))
                     continue
@@ -497,7 +510,7 @@ class Ctx:
                     # whole stage is run again, otherwise the machinery is broken
                     if whole is None:
                         whole = self.replay(name, cases_path, race=race, extra=extra)
-                    if whole[r["i"]]["ok"]:
+                    if whole[r["i"]]["ok"] and not self._same_class_fails(whole, r):
                         raise Broken("failure of %s case not reproducible in isolation nor by running the stage again: %s"
                                      % (name, json.dumps(r)[:500]))
                     r["history"], r["cases_path"] = True, cases_path
